@@ -979,6 +979,18 @@ class HttpPayloadParser:
     def feed_data(
         self, chunk: bytes, SEP: _SEP = b"\r\n", CHUNK_EXT: bytes = b";"
     ) -> tuple[PayloadState, bytes]:
+        state, tail = self._feed_data(chunk, SEP, CHUNK_EXT)
+        if state is PayloadState.PAYLOAD_NEEDS_INPUT:
+            # All input has been consumed: a pause requested while feeding it has
+            # nothing left to hold back (the transport is paused by the protocol).
+            # Leaving the flag set would stash the *next* read and report pending
+            # input that nobody resumes, stalling the body forever.
+            self._paused = False
+        return state, tail
+
+    def _feed_data(
+        self, chunk: bytes, SEP: _SEP = b"\r\n", CHUNK_EXT: bytes = b";"
+    ) -> tuple[PayloadState, bytes]:
         """Receive a chunk of data to process.
 
         Return:
@@ -1170,11 +1182,6 @@ class HttpPayloadParser:
                 self._eof_pending = False
                 return PayloadState.PAYLOAD_COMPLETE, b""
 
-        # All input has been consumed: a pause requested while feeding it has
-        # nothing left to hold back (the transport is paused by the protocol).
-        # Leaving the flag set would stash the *next* read and report pending
-        # input that nobody resumes, stalling the body forever.
-        self._paused = False
         return PayloadState.PAYLOAD_NEEDS_INPUT, b""
 
 
